@@ -424,6 +424,33 @@ pub fn run(tier: Tier) -> i32 {
     let st = run_space(c.len(), |i| check_doc(&c[i], "content", &cfgs));
     rep.sample(json!({"leg": "content", "doc": c[c.len() / 3]}));
     rep.absorb("content", st);
+    // (fourth review round) references to entities which the document's own DOCTYPE declares
+    let edocs: Vec<(&str, String, Option<String>)> = vec![
+        // (name, document, None = the output is the input byte for byte / Some(fragment the output must hold))
+        ("namespace-by-entity", format!("<!DOCTYPE svg [<!ENTITY ns_svg \"{NS}\">]><svg xmlns=\"&ns_svg;\" width=\"5\"><rect wh=\"3\" class=\"b  a\"/></svg>"), None),
+        ("namespace-by-entity/illustrator-header", format!("<?xml version=\"1.0\" encoding=\"utf-8\"?>\n<!DOCTYPE svg PUBLIC \"-//W3C//DTD SVG 1.1//EN\" \"http://www.w3.org/Graphics/SVG/1.1/DTD/svg11.dtd\" [\n\t<!ENTITY ns_svg \"{NS}\">\n\t<!ENTITY ns_xlink \"http://www.w3.org/1999/xlink\">\n]>\n<svg version=\"1.1\" xmlns=\"&ns_svg;\" xmlns:xlink=\"&ns_xlink;\" width=\"5\"><rect wh=\"3\"/></svg>\n"), None),
+        ("embedded/entity-in-start-tag", format!("<!DOCTYPE svg [<!ENTITY w \"10\">]><svg><svg xmlns=\"{NS}\" width=\"&w;\"/></svg>"), Some(format!("<svg xmlns=\"{NS}\" width=\"10\"/>"))),
+        ("embedded/entity-in-content", format!("<!DOCTYPE svg [<!ENTITY w \"10\">]><svg><svg xmlns=\"{NS}\"><rect width=\"&w;\"/><text>&w;</text></svg></svg>"), Some(format!("<svg xmlns=\"{NS}\"><rect width=\"10\"/><text>10</text></svg>"))),
+    ];
+    let st = run_space(edocs.len(), |i| {
+        let (name, doc, want) = &edocs[i];
+        let out = run_bytes(doc.as_bytes(), &Cfg::plain());
+        let problem = match (&out, want) {
+            (Outcome::Ok(b), None) if b == doc.as_bytes() => None,
+            (Outcome::Ok(b), None) => Some(format!("not passed through as written: {}", clip(&String::from_utf8_lossy(b), 400))),
+            (Outcome::Ok(b), Some(w)) if String::from_utf8_lossy(b).contains(w.as_str()) => None,
+            (Outcome::Ok(b), Some(w)) => Some(format!("the output does not hold {w}: {}", clip(&String::from_utf8_lossy(b), 400))),
+            (other, _) => Some(other.brief()),
+        };
+        CaseResult {
+            case_hash: hash64(doc),
+            nontrivial: problem.is_none(),
+            outcome_hash: hash64(&format!("{out:?}")),
+            executions: 1,
+            violation: problem.map(|p| Violation { clause: "declared-entities".into(), signature: format!("C03/declared-entities/{name}"), case: json!({"leg": "declared-entities", "input": doc}), detail: format!("{doc}\n{p}") }),
+        }
+    });
+    rep.absorb("declared-entities", st);
     let p = space_prolog();
     let st = run_space(p.len(), |i| check_doc(&p[i], "prolog", &cfgs));
     rep.sample(json!({"leg": "prolog", "doc": p[p.len() - 7]}));
